@@ -3,7 +3,7 @@ NOTES = ("All checks: python3 vt.py <id> --tier quick|thorough. Exploration runs
          "small C++ models next to the harness. Defects found so far were repaired by 'fix:' commits in /repo and are listed "
          "in known_findings.txt as fixed: entries. See DESIGN.md.")
 ENGINES = [
-    {"name": "vt-engine", "path": "/verif/engine", "serves_properties": ["C01", "C02", "C03"],
+    {"name": "vt-engine", "path": "/verif/engine", "serves_properties": ["C01", "C02", "C03", "C04", "C05", "C13"],
      "kind_free_text": "explicit-state BFS to a fixpoint over quiescent states of generated machines, executed on the real library (fresh instance + history replay per edge), with deviation-bounded enumeration of every callback decision inside a step; monitors and a reference semantics evaluated on every edge"},
     {"name": "vt-component", "path": "/verif/harness", "serves_properties": ["C07", "C18", "C19", "C20"],
      "kind_free_text": "explicit-state BFS / bounded-exhaustive enumeration over the concrete state of real library components, compared edge by edge with std containers or independent reference code"},
@@ -40,3 +40,14 @@ chk("C20", "exploration",
     "All 2^32 seeds of the 32-bit variants (thorough; quick 2^22) and all 2^32 arguments of uniform(uint32_t), windows of 64-bit seeds x 256 outputs, jump(), compared with an independent transcription of the published splitmix/xoshiro reference code (self-checked against published test vectors); digests compared across g++/clang++ builds and re-runs.",
     "Trusts the transcription of the published algorithms (validated against known answers), the compilers; 64-bit seeds and stream positions outside the windows rest on the step functions being state-independent code.",
     "exhaustive enumeration of the 32-bit seed/argument space with reference-implementation oracle", "DESIGN.md 4 C20")
+
+chk("C04", "model_checking",
+    "From every reachable quiescent state every request op is run with every guard decision vector of <= d deviations (cancel, cancel+substitute kind x state, extra request) and with adversarial always-repeat guard scripts under substitution limits 1, 2, 4; a per-call trace monitor checks guard precedence and round bounds and a differential oracle ('X vetoed, Y substituted' == 'Y alone'; 'X vetoed' == nothing) decides veto atomicity on every such edge.",
+    ENGINE_NOTE + " Rounds are reconstructed from guard callbacks; the quick tier uses the reduced guard menus on change/restart/resume ops.",
+    "explicit-state model checking with trace-monitor and differential oracles over all guard decisions", "DESIGN.md 4 C04")
+chk("C05", "model_checking",
+    "Every reachable configuration x {update, react, query} x {TopDown, BottomUp} x every consuming (state, phase): the delivered callback sequence of each pass is compared with the sequence computed from the independent descriptor and the configuration, including injected bases and the cut at the consuming state.",
+    ENGINE_NOTE, "explicit-state model checking, expected-order oracle per pass", "DESIGN.md 4 C05")
+chk("C13", "model_checking",
+    "All reachable quiescent states and all single-request edges: activeSubState/isResumable consistency for all ids, resume activates the reported sub-state, and inside every first-round guard callback isPendingEnter/Exit/Change for all ids against the enter/exit callbacks the approved round delivers. Known findings (nearest-ancestor-only answers) are listed in known_findings.txt with witness-specific keys.",
+    ENGINE_NOTE, "explicit-state model checking, in-callback query snapshots vs outcome", "DESIGN.md 4 C13")
